@@ -21,7 +21,7 @@ from simfile.dir import DuplicateSimfileError, SimfileDirectory, SimfilePack  # 
 
 LEVEL = "model_checking"
 
-NAMES = ["a.sm", "b.SM", "c.Ssc", "d.ssc", ".sm", "x.sm.old", "y.ssca", "sm", "bn.png", "song.ogg", "e.ßc", "f.ſm"]
+NAMES = ["a.sm", "b.SM", "c.Ssc", "d.ssc", ".sm", "x.sm.old", "y.ssca", "sm", "bn.png", "song.ogg", "e.ßc", "f.ſm", "data_sm", "x-ssc"]
 JP = "日本語タイトル"
 
 
@@ -55,7 +55,7 @@ def child_tree(kind):
     if kind == "empty":
         return {}
     if kind == "nearmiss":
-        return {"x.sm.old": b"x", "y.ssca": b"x", "sm": b"x", "e.ßc": b"x", "f.ſm": b"x"}
+        return {"x.sm.old": b"x", "y.ssca": b"x", "sm": b"x", "e.ßc": b"x", "f.ſm": b"x", "data_sm": b"x", "x-ssc": b"x"}
     if kind == "nested":
         return {"inner": {"a.sm": content_for("a.sm")}, "readme.txt": b"x"}
     if kind == "jp":
